@@ -459,9 +459,12 @@ def gmm_cases(chk, n):
 
 def run(chk, replay=None):
     chk.stage_proofs(kernels=["DelayDist"])
-    big = chk.tier != "quick"
     if replay:
-        rp = json.load(open(replay)); chk.notes.append("replay: re-running the generator stage that produced " + rp.get("signature", "?"))
+        import random
+        rp = json.load(open(replay)); chk.seed = rp.get("seed", chk.seed); chk.tier = rp.get("tier", chk.tier)
+        chk.rnd = random.Random(chk.seed * 1000003 + 15)     # same stream as the run that stored the case
+        chk.notes.append("replay: re-running the seeded generation of the run that produced " + str(rp.get("signature", "?")))
+    big = chk.tier != "quick"
     times = {}
     for nm, f, n in (("grid", grid_cases, 1000 if big else 160), ("quantile", quantile_cases, 400 if big else 60),
                      ("sample", sample_cases, 250 if big else 40), ("trainable", trainable_cases, 400 if big else 80),
